@@ -55,10 +55,12 @@ type Str struct {
 type icsBlob struct {
 	data    value // encoded FungibleTokenPacketData (structure)
 	unknown bool  // carries an unknown field: refused by the strict proto JSON codec, accepted by encoding/json
+	wire    int   // wire form: 0 canonical (empty fields omitted), 1 every field present, 2 empty fields omitted + escapes + white space; a decoder leaves absent fields of its target untouched
 }
 type memoBlob struct {
 	wrapper value // *value -> PayloadWrapper structure
 	extra   int   // extra root keys besides "orbiter"
+	tail    int   // bytes after the document: 0 none, 1..3 not white space (the memo is not a JSON document), 4 white space
 }
 type decBlob struct{ v *Term } // decimal rendering of an Int term
 
@@ -86,6 +88,10 @@ func (s *Str) Concrete() (string, bool) {
 }
 
 func (s *Str) at(i int) *Term {
+	if s.Blob != nil {
+		// the bytes of an encoded document exist only natively: code that looks at them is decided by the concolic run
+		panic(pathEnd{kind: "unsupported", msg: "raw byte access into an encoded document"})
+	}
 	if i < len(s.B) {
 		return s.B[i]
 	}
